@@ -173,9 +173,10 @@ def _convert_ifexp(node: ast.IfExp) -> libsbml.ASTNode:
     true = _convert_node(node.body)
     false = _convert_node(node.orelse)
 
+    # MathML piecewise: (value, condition) pieces followed by the otherwise value
     sbml_node = libsbml.ASTNode(libsbml.AST_FUNCTION_PIECEWISE)
-    sbml_node.addChild(condition)
     sbml_node.addChild(true)
+    sbml_node.addChild(condition)
     sbml_node.addChild(false)
     return sbml_node
 
